@@ -367,6 +367,18 @@ type WNoFields struct {
 	BQ     string `bq:"-"`
 }
 
+// WFixedWidth: every field has a constant encoded width
+type WFixedInner struct {
+	X float64 `json:"x"`
+	Y bool    `json:"y"`
+}
+type WFixedWidth struct {
+	A float64     `json:"a"`
+	B float32     `json:"b"`
+	C bool        `json:"c"`
+	N WFixedInner `json:"n"`
+}
+
 func staticOf[T any](name string) rtCase {
 	return rtCase{name: name, typ: reflect.TypeFor[T](), mk: encodeGeneric[T], path: "encoder"}
 }
